@@ -50,7 +50,7 @@ every other exception escapes. `none` = AttributeError. -/
 def sizeAttr (b : Val) : M (Option Val) :=
   match Resolve.resolveSize [] b with
   | .ok s => pure (some s)
-  | .error (.other "AttributeError") => pure none
+  | .error (.other cls) => if cls == "AttributeError" then pure none else .error (.other cls)
   | .error e => .error e
 
 /-- Python `a == b` for any two values that can be an argument / index / size / bound / count. -/
